@@ -47,6 +47,7 @@ fn profile(tx: usize, long: bool) -> Profile {
         w_setio: 1,
         w_fault: 1,
         w_eof: 0,
+        w_fill: 3,
         fail_reason_pct: 8,
         rm: vec![None, None, Some(1), Some(2), Some(5), Some(65535)],
         vary_rm_pct: 60,
@@ -58,9 +59,10 @@ fn profile(tx: usize, long: bool) -> Profile {
     }
 }
 
-fn probe_script(first: &ConnectSpec, tx: usize) -> ConnScript {
+fn probe_steps(tx: usize) -> Vec<Step> {
     let so = SubOpts { qos: 1, no_local: false, rap: false, retain_handling: 0 };
-    let mut steps = vec![Step::SetBroker(BrokerMode::AutoAck), Step::PollIdle { max: 200 }];
+    // marker: the only PollIdle with max 200 in a case
+    let mut steps = vec![Step::SetIo(IoCfg::default()), Step::SetBroker(BrokerMode::AutoAck), Step::PollIdle { max: 200 }];
     let t = tx as u32;
     let mut ladder: Vec<u32> = vec![0, 1, t / 8, t / 4, t / 2, t.saturating_sub(40), t.saturating_sub(20), t.saturating_sub(14), t.saturating_sub(12), t.saturating_sub(10), t.saturating_sub(8), t.saturating_sub(6), t];
     ladder.dedup();
@@ -84,11 +86,24 @@ fn probe_script(first: &ConnectSpec, tx: usize) -> ConnScript {
     }
     steps.push(Step::SetBroker(BrokerMode::AutoAck));
     steps.push(Step::PollIdle { max: 60 });
+    steps
+}
+
+fn probe_script(first: &ConnectSpec, tx: usize) -> ConnScript {
     ConnScript {
         connect: ConnectSpec { handshake: Handshake::Accept, keep_session: true, props: ConnackProps { receive_max: None, ..first.props.clone() }, io: IoCfg::default() },
-        steps,
+        steps: probe_steps(tx),
         end: EndHow::Drop,
     }
+}
+
+/// (connection, index of the probe's first step): the probe either is a connection of its own or
+/// continues the last connection of the history (a reconnect re-packs the arena and would hide
+/// capacity that is only lost until then).
+fn probe_at(case: &Case) -> (usize, usize) {
+    let ci = case.conns.len() - 1;
+    let si = case.conns[ci].steps.iter().position(|s| matches!(s, Step::PollIdle { max: 200 })).map(|p| p.saturating_sub(2)).unwrap_or(0);
+    (ci, si)
 }
 
 pub fn strategy(long: bool) -> BoxedStrategy<Case> {
@@ -100,17 +115,27 @@ pub fn strategy(long: bool) -> BoxedStrategy<Case> {
     ];
     tx.prop_flat_map(move |tx| {
         let p = profile(tx, long);
-        (cgen::case(&p), prop::collection::vec(any::<bool>(), 3))
+        (cgen::case(&p), prop::collection::vec(any::<bool>(), 3), any::<bool>())
     })
-    .prop_map(|(mut case, drains)| {
+    .prop_map(|(mut case, drains, same_conn)| {
         for (i, cs) in case.conns.iter_mut().enumerate() {
             if drains[i % drains.len()] {
                 cs.steps.push(Step::Broker(BrokerAct::AckAll { reverse: i % 2 == 1 }));
                 cs.steps.push(Step::PollIdle { max: 60 });
             }
         }
-        let probe = probe_script(&case.conns[0].connect, case.cfg.tx);
-        case.conns.push(probe);
+        let tx = case.cfg.tx;
+        let last_alive = case.conns.last().is_some_and(|c| {
+            c.connect.handshake == Handshake::Accept && !c.steps.iter().any(|s| matches!(s, Step::Eof | Step::FaultAt { .. } | Step::Disconnect { .. } | Step::Broker(BrokerAct::Disconnect { .. })))
+        });
+        if same_conn && last_alive {
+            let last = case.conns.last_mut().unwrap();
+            last.steps.extend(probe_steps(tx));
+            last.end = EndHow::Drop;
+        } else {
+            let probe = probe_script(&case.conns[0].connect, tx);
+            case.conns.push(probe);
+        }
         case
     })
     .boxed()
@@ -124,17 +149,17 @@ pub struct Out {
     pub watchdog: bool,
 }
 
-fn probe_view(trace: &Trace, conn_idx: usize) -> Vec<(OpKind, (usize, usize), OpRes)> {
+fn probe_view(trace: &Trace, conn_idx: usize, from: usize) -> Vec<(OpKind, (usize, usize), OpRes)> {
     trace
         .ops
         .iter()
-        .filter(|o| o.step.0 == conn_idx && !matches!(o.kind, OpKind::Poll))
+        .filter(|o| o.step.0 == conn_idx && o.step.1 >= from && !matches!(o.kind, OpKind::Poll))
         .map(|o| {
             let r = match &o.res {
                 OpRes::Handle(_) => OpRes::Handle(0),
                 other => other.clone(),
             };
-            (o.kind, (0, o.step.1), r)
+            (o.kind, (0, o.step.1 - from), r)
         })
         .collect()
 }
@@ -157,10 +182,10 @@ pub fn eval(case: &Case) -> Out {
     let view = View::build(&trace);
     let (mv, stats) = Model::run(case, &view);
     let mut v: Vec<Violation> = mv.into_iter().filter(|x| x.prop == "C17" || x.prop == "PANIC").collect();
-    let fin_idx = case.conns.len() - 1;
+    let (fin_idx, from) = probe_at(case);
     let mut out = Out {
         violations: vec![],
-        ops_before_probe: trace.ops.iter().filter(|o| o.step.0 < fin_idx).count(),
+        ops_before_probe: trace.ops.iter().filter(|o| o.step.0 < fin_idx || (o.step.0 == fin_idx && o.step.1 < from)).count(),
         replay_after_ooo_ack: stats.acks_out_of_order > 0 && stats.replays > 0,
         probed: false,
         watchdog: trace.watchdog,
@@ -168,20 +193,24 @@ pub fn eval(case: &Case) -> Out {
     let complete = trace.conns.len() == case.conns.len() && trace.conns.last().is_some_and(|c| c.1.is_ok());
     if complete && !trace.watchdog {
         let fin_tr = trace.conns.len() - 1;
-        let twin_case = Case { cfg: case.cfg.clone(), broker: BrokerMode::Scripted, conns: vec![case.conns[fin_idx].clone()] };
+        let mut twin_conn = case.conns[fin_idx].clone();
+        twin_conn.steps.drain(..from);
+        twin_conn.connect.io = IoCfg::default();
+        twin_conn.connect.handshake = Handshake::Accept;
+        let twin_case = Case { cfg: case.cfg.clone(), broker: BrokerMode::Scripted, conns: vec![twin_conn] };
         let twin = run_case(&twin_case);
         if twin.conns.first().is_some_and(|c| c.1.is_ok()) {
             // the drain must have brought the session to quiescence (else this is C16's business)
             let drained = trace
                 .ops
                 .iter()
-                .filter(|o| o.step == (fin_idx, 1))
+                .filter(|o| o.step == (fin_idx, from + 2))
                 .last()
                 .is_some_and(|o| matches!(o.res, OpRes::Blocked { .. }));
             if drained {
                 out.probed = true;
-                let mine = probe_view(&trace, fin_idx);
-                let theirs = probe_view(&twin, 0);
+                let mine = probe_view(&trace, fin_idx, from);
+                let theirs = probe_view(&twin, 0, 0);
                 if mine != theirs {
                     let i = mine.iter().zip(theirs.iter()).position(|(a, b)| a != b).unwrap_or(mine.len().min(theirs.len()));
                     let step = mine.get(i).map(|m| m.1 .1).unwrap_or(0);
@@ -190,7 +219,7 @@ pub fn eval(case: &Case) -> Out {
                         sig: "C17/capacity-differs-from-fresh-session".into(),
                         detail: format!(
                             "after everything was acknowledged, probe step {step} ({:?}) returned {:?} on the session that lived through the history, but {:?} on a brand-new session (tx arena {} bytes)",
-                            case.conns[fin_idx].steps.get(step),
+                            case.conns[fin_idx].steps.get(step + from),
                             mine.get(i).map(|m| &m.2),
                             theirs.get(i).map(|m| &m.2),
                             case.cfg.tx
@@ -201,7 +230,7 @@ pub fn eval(case: &Case) -> Out {
                     let b = probe_samples(&twin, 0);
                     // compare from the end of the drain on (same number of steps afterwards)
                     let n = a.len().min(b.len());
-                    if a[a.len() - n + 2.min(n)..] != b[b.len() - n + 2.min(n)..] {
+                    if a[a.len() - n + 3.min(n)..] != b[b.len() - n + 3.min(n)..] {
                         v.push(Violation { prop: "C17", sig: "C17/capacity-predicates-differ-from-fresh-session".into(), detail: "can_publish()/is_publish_quiescent() during the probe sweep differ from a brand-new session".into() });
                     }
                 }
